@@ -125,6 +125,70 @@ func runEngineG3(p *Prog, o *obls) {
 					guarded = true
 				}
 			}
+			// the value and its ok flag are handed together to a helper (`ackLocked(ts, counter, known, ack)`): inside
+			// the helper every use of the value as a key is on the branch where the flag parameter is true
+			if !guarded && okv != nil {
+				if ci, isCall := use.(ssa.CallInstruction); isCall {
+					if sc := ci.Common().StaticCallee(); sc != nil && p.InUniverse(sc) {
+						vi, oi := -1, -1
+						for i, a := range ci.Common().Args {
+							if p.origin(a) == p.origin(val) {
+								vi = i
+							}
+							if p.origin(a) == p.origin(okv) {
+								oi = i
+							}
+						}
+						if vi >= 0 && oi >= 0 && vi < len(sc.Params) && oi < len(sc.Params) {
+							okPar := sc.Params[oi]
+							allGuarded, any := true, false
+							var uses func(v ssa.Value, d int)
+							uses = func(v ssa.Value, d int) {
+								if v.Referrers() == nil || d > 3 {
+									return
+								}
+								for _, r := range *v.Referrers() {
+									isKey := false
+									switch x := r.(type) {
+									case *ssa.Lookup:
+										isKey = x.Index == v
+									case *ssa.MapUpdate:
+										isKey = x.Key == v
+									case *ssa.IndexAddr:
+										isKey = x.Index == v
+									case *ssa.Store:
+										if al, ok := cellAddr(x.Addr).(*ssa.Alloc); ok && x.Val == v {
+											for _, rr := range *al.Referrers() {
+												if u, ok := rr.(*ssa.UnOp); ok {
+													uses(u, d+1)
+												}
+											}
+										}
+									}
+									if !isKey {
+										continue
+									}
+									any = true
+									g := false
+									for _, f := range dominatingFactsInstr(r) {
+										f = normFact(f)
+										if p.origin(f.cond) == ssa.Value(okPar) && f.truth {
+											g = true
+										}
+									}
+									if !g {
+										allGuarded = false
+									}
+								}
+							}
+							uses(sc.Params[vi], 0)
+							if any && allGuarded {
+								guarded = true
+							}
+						}
+					}
+				}
+			}
 			if guarded {
 				o.ok("G3", key, p.instrPos(lk), "comma-ok lookup on an index map; its value is used as "+w+" only where ok is true")
 			} else {
